@@ -53,6 +53,14 @@ def body(ctx):
             spec = dict(seed=1, maxdata=4096, rid='plus', frag='bytes1', ops=[dict(api='stat', path=('/s', '/é', '/файл')[(a + b) % 3], path_bytes=bool((a ^ b) & 1), st=[a, b, a ^ b])])
             runs.append(('sync', spec, scen.run(spec, 'sync'), None))
             runs.append(('async', spec, scen.run(spec, 'async'), None))
+    # field values whose bytes spell words of the protocol family (a mode that reads b'FAIL', a size that reads b'DONE', ...)
+    KW = scen.KEYWORD32
+    for a in range(len(KW)):
+        st = [KW[a], KW[(a + 5) % len(KW)], KW[(a + 9) % len(KW)]]
+        ents = [[(b'n%d' % j).hex(), KW[(a + j) % len(KW)], KW[(a + 2 * j + 1) % len(KW)], KW[(a + 3 * j + 2) % len(KW)]] for j in range(3)]
+        spec = dict(seed=ctx.seed + a, maxdata=4096, rid='plus', frag=('whole', 'random')[a % 2], ops=[dict(api='stat', path='/kw', st=st), dict(api='list', path='/kwd', entries=ents, cuts='random')])
+        for mode in ('sync', 'async'):
+            runs.append((mode, spec, scen.run(spec, mode), None))
     # an operation aborted in the middle of its reply (the device falls silent), then the same kind of operation again on the same connection
     for k2, frag in enumerate(['whole', 'random', 'bytes1']):
         for mode in ('sync', 'async'):
